@@ -31,7 +31,16 @@ func signature(kind string, c any, msg string) string {
 		cv := curves[ac.Curve]
 		sv := new(big.Int).Mod(unhx(ac.S), cv.R)
 		pm1 := sv.Cmp(big.NewInt(1)) == 0 || sv.Cmp(new(big.Int).Sub(cv.R, big.NewInt(1))) == 0
+		base := cv.G
+		if ac.Op == opMul {
+			base = ac.P.point()
+		}
 		switch {
+		case strings.Contains(msg, "is satisfiable") && cv.Lambda != nil && ac.Complete &&
+			(sameAbscissa(cv, base, sv, ac.Claim) || sv.Sign() == 0 || sv.Cmp(new(big.Int).Sub(cv.R, big.NewInt(1))) == 0 || base.isInf()):
+			return SigCompleteBypass
+		case strings.Contains(msg, "rejects the native result") && cv.Lambda == nil && fakeGLVCollision(cv, sv):
+			return SigFakeGLVScalarOne
 		case strings.Contains(msg, "is satisfiable") && cv.Lambda != nil && (ac.Strategy == "zero-subscalars" || (ac.Strategy == "small-subscalars" && ac.K&0xf == 0)):
 			return SigZeroSubscalars
 		case strings.Contains(msg, "rejects the native result") && cv.Lambda == nil && pm1:
@@ -44,7 +53,7 @@ func signature(kind string, c any, msg string) string {
 		cv := curves[sc.Curve]
 		for _, x := range sc.Scalars {
 			m := new(big.Int).Mod(x.value(), cv.R)
-			if m.Cmp(big.NewInt(1)) == 0 || m.Cmp(new(big.Int).Sub(cv.R, big.NewInt(1))) == 0 {
+			if fakeGLVCollision(cv, m) {
 				return SigFakeGLVScalarOne
 			}
 		}
@@ -108,12 +117,32 @@ func oppositeYDistinctX(c *SWCase) bool {
 	return false
 }
 
+func sameAbscissa(cv *swCurve, base point, s *big.Int, claim string) bool {
+	cp, _ := claimPoint(cv, base, s, claim)
+	return cp.X.Cmp(base.X) == 0
+}
+
+// fakeGLVCollision: s in {+-1, +-3, +-1/3} makes the hinted R = [s]Q collide with the
+// precomputed table {+-Q, +-3Q, +-R, +-3R} of scalarMulFakeGLV.
+func fakeGLVCollision(cv *swCurve, s *big.Int) bool {
+	inv3 := new(big.Int).ModInverse(big.NewInt(3), cv.R)
+	for _, k := range []*big.Int{big.NewInt(1), big.NewInt(3), inv3} {
+		if s.Cmp(k) == 0 || s.Cmp(new(big.Int).Sub(cv.R, k)) == 0 {
+			return true
+		}
+	}
+	return false
+}
+
 const (
+	// sw_emulated scalarMulGLVAndFakeGLV with WithCompleteArithmetic: the relation check is skipped when s = 0, s = -1,
+	// P = (0,0) or the *hinted* result has the abscissa of P; the returned point is the unconstrained hint output
+	SigCompleteBypass = "glvfakeglv-complete-selector-bypass"
 	// sw_emulated scalarMulGLVAndFakeGLV (secp256k1, BN254, BLS12-381, BW6-761): the hinted Eisenstein
 	// sub-scalars u1,u2,v1,v2 may all be 0; the relation [v]Q + [u]P = 0 then holds for every Q:
 	// ScalarMul / ScalarMulBase accept any claimed result
 	SigZeroSubscalars = "glvfakeglv-zero-subscalars-any-output"
-	// sw_emulated scalarMulFakeGLV (P-256, P-384): s = +-1 unsatisfiable with and without complete arithmetic
+	// sw_emulated scalarMulFakeGLV (P-256, P-384): s in {+-1, +-3, +-1/3} unsatisfiable with and without complete arithmetic
 	SigFakeGLVScalarOne = "fakeglv-scalarmul-scalar-pm1"
 	// AddUnified (emulated and native): for y1 = -y2 with x1 != x2 (e.g. Q = -phi(P) on j=0 curves) the
 	// gadget returns (0,0) instead of P+Q
